@@ -14,6 +14,7 @@ code by TraceOscMatch / TraceDispatch / TraceRegistries:
  - histories on the real SystemAction / ServerAction / NotificationCenter classes."""
 import itertools
 import json
+import os
 import random
 import time
 from concurrent.futures import ThreadPoolExecutor
@@ -21,7 +22,7 @@ from concurrent.futures import ThreadPoolExecutor
 from harness import oscgen as g
 from harness import oscv
 from harness import tlc
-from harness.common import MachineryError
+from harness.common import MachineryError, NCPU
 
 DRIVER = 'drivers/c18_dispatch.py'
 PAT = 'ab/?*[]!-{,}'
@@ -140,6 +141,61 @@ def random_history(rnd, faults):
     return ev
 
 
+FAMILIES = [(['/a', '/ab', '/abc'], '/a*'), (['/a', '/b', '/ab'], '/?*'), (['/ab', '/ba', '/a'], '/*'), (['/a/b', '/a/a', '/b/a'], '/*/?'),
+            (['/ab', '/ba', '/abc'], '/{ab,ba,abc}')]
+
+
+def multipath_histories():
+    """One message whose address is a pattern matching several registered paths; a callback frees / disables a
+    responder of ANOTHER path - the sole one of its path or not, registered before or after the actor, for the
+    matching dispatcher, the exact one and both together; a third, untouched responder must fire exactly once."""
+    plain = dict(src=dict(h=0, p=0), rport=0, tmpl=[], os=False, beh=QUIET)
+    s1 = dict(h=1, p=5001)
+    out = []
+    for paths, pat in FAMILIES[:3]:
+        for kinds in (('matching',) * 4, ('exact',) * 4, ('matching', 'exact', 'matching', 'exact'), ('exact', 'matching', 'matching', 'matching')):
+            for actor in (1, 2, 3):
+                for target in (1, 2, 3):
+                    if actor == target:
+                        continue
+                    for op in ('free', 'disable'):
+                        for sole in (True, False):
+                            ev = []
+                            for i in range(3):
+                                beh = dict(rk=0, acts=[dict(op=op, i=target)]) if i + 1 == actor else QUIET
+                                ev.append(dict(dict(op='create', kind=kinds[i], path=codes(paths[i]), **plain), beh=beh))
+                            if not sole:    # a fourth responder shares the target's path
+                                ev.append(dict(op='create', kind=kinds[target - 1], path=codes(paths[target - 1]), **plain))
+                            ev.append(dict(op='recv', v=g.M(pat, []), src=s1, via=1))
+                            ev.append(dict(op='recv', v=g.M(paths[0], [g.I(1)]), src=s1, via=1))     # literal: the exact ones too
+                            ev.append(dict(op='recv', v=g.M(pat, [g.I(2)]), src=s1, via=1))
+                            out.append(ev)
+    return out
+
+
+def multipath_random(rnd):
+    """random history in which everybody listens on paths that one pattern matches"""
+    paths, pat = rnd.choice(FAMILIES)
+    n = rnd.randint(2, 5)
+    kind = rnd.choice(['matching', 'matching', 'exact', None])
+    ev = []
+    for i in range(n):
+        acts = [dict(op=rnd.choice(['free', 'free', 'disable', 'enable']), i=rnd.randint(1, n)) for _ in range(rnd.choice([0, 0, 1, 1, 2]))]
+        ev.append(dict(op='create', kind=kind or rnd.choice(['exact', 'matching']), path=codes(rnd.choice(paths)), src=dict(h=0, p=0),
+                       rport=0, tmpl=[], os=rnd.random() < 0.2, beh=dict(rk=rnd.choice([0, 0, 0, 1, 2]), acts=acts)))
+    for _ in range(rnd.randint(2, 5)):
+        x = rnd.random()
+        if x < 0.6:
+            ev.append(dict(op='recv', v=g.M(pat, rnd.choice(ARGS[:3])), src=SENDERS[0], via=1))
+        elif x < 0.8:
+            ev.append(dict(op='recv', v=g.M(rnd.choice(paths), []), src=SENDERS[0], via=1))
+        elif x < 0.9:
+            ev.append(dict(op='enable', i=rnd.randint(1, n)))
+        else:
+            ev.append(dict(op='recv', v=g.Bn(g.K('none'), [g.M(pat, []), g.M(rnd.choice(paths), [])]), src=SENDERS[0], via=1))
+    return ev
+
+
 def directed_histories():
     rnd = random.Random(1)
     plain = dict(src=dict(h=0, p=0), rport=0, tmpl=[], os=False, beh=QUIET)
@@ -213,8 +269,8 @@ def directed_histories():
     return out
 
 
-def sim_histories(ctx, num):
-    behs, r = tlc.simulate_behaviours('DispatchModel', 'DispatchModel_sim.cfg', ctx.work, num=num, depth=14, seed=ctx.seed + 1)
+def sim_histories(ctx, num, cfg='DispatchModel_sim.cfg', depth=14, seed_off=1, sub='s'):
+    behs, r = tlc.simulate_behaviours('DispatchModel', cfg, os.path.join(ctx.work, sub), num=num, depth=depth, seed=ctx.seed + seed_off)
     ctx.cov['transitions'] += r.generated
     out = []
     for b in behs:
@@ -232,7 +288,7 @@ def sim_histories(ctx, num):
 
 
 def fault_datagrams(ctx):
-    r = tlc.run('OscFaultModel', 'OscFaultModel_emit.cfg', ctx.work, workers=1, timeout=600)
+    r = tlc.run('OscFaultModel', 'OscFaultModel_emit.cfg', os.path.join(ctx.work, 'm5'), workers=1, timeout=600)
     if not r.ok:
         raise MachineryError('OscFaultModel emit failed: %s\n%s' % (r.violated, r.output[-2000:]))
     out = []
@@ -420,28 +476,53 @@ def judge(ctx, cases, traces):
 def run(ctx):
     thorough = not ctx.quick
     sfx = '_thorough' if thorough else ''
-    r = ctx.model_check('OscMatchModel', 'OscMatchModel%s.cfg' % sfx, require_cover=('AddChar',), timeout=1500)
-    ctx.expect_ok(r, 'OscMatchModel (LiteralLaw, PartsLaw, MalformedLaw, StarLaw)')
-    r = ctx.model_check('DispatchModel', 'DispatchModel%s.cfg' % sfx, timeout=1500,
-                        require_cover=('Create', 'Enable', 'Disable', 'Free', 'OneShot', 'SetFunc', 'SetPerm', 'CmdPeriod', 'Recv'))
-    ctx.expect_ok(r, 'DispatchModel (FreedNeverFires, DisabledNeverFires, SpentNeverFires, FaultTransparent, SpecIsLegal, ...)')
-    r = ctx.model_check('DispatchImpl', 'DispatchImpl.cfg', require_cover=('Begin', 'Call', 'End'), timeout=300)
-    ctx.expect_ok(r, 'DispatchImpl (delivery loop over a copy refines Fire)')
-    r = ctx.model_check('OscFaultModel', 'OscFaultModel%s.cfg' % sfx, require_cover=('Trunc', 'Word', 'ByteF', 'Extend'), timeout=1500)
-    ctx.expect_ok(r, 'OscFaultModel (decoder total on damaged datagrams)')
-    r = ctx.model_check('RegistriesModel', 'RegistriesModel.cfg', require_cover=('Add', 'Remove', 'RemoveAll', 'Run'), timeout=600)
-    ctx.expect_ok(r, 'RegistriesModel')
+    # design models, side by side (each TLC run in a work directory of its own)
+    def mc(sub, module, cfg, cover, what, label=None):
+        r = tlc.run(module, cfg, os.path.join(ctx.work, sub), workers=NCPU, coverage=True, timeout=1500)
+        run_ = dict(module=module, cfg=cfg, **r.summary())
+        if label:
+            run_['label'] = label
+        run_['actions_taken'] = {k: v[0] for k, v in sorted(r.coverage.items()) if k in cover}
+        ctx.cov['model_runs'].append(run_)
+        ctx.cov['states'] += r.distinct
+        ctx.cov['transitions'] += r.generated
+        for a in cover:
+            if r.coverage.get(a, (0, 0))[1] == 0:
+                raise MachineryError('vacuity: action %s never taken in %s/%s' % (a, module, cfg))
+        ctx.expect_ok(r, what)
+
+    jobs = dict(
+        match=lambda: mc('m1', 'OscMatchModel', 'OscMatchModel%s.cfg' % sfx, ('AddChar',), 'OscMatchModel (LiteralLaw, PartsLaw, MalformedLaw, StarLaw)'),
+        base=lambda: mc('m2', 'DispatchModel', 'DispatchModel%s.cfg' % sfx,
+                        ('Create', 'Enable', 'Disable', 'Free', 'OneShot', 'SetFunc', 'SetPerm', 'CmdPeriod', 'Recv'),
+                        'DispatchModel (FreedNeverFires, DisabledNeverFires, SpentNeverFires, FaultTransparent, SpecIsLegal, ...)'),
+        # three responders on up to three paths, wildcard messages matching several, callbacks acting on other paths
+        paths=lambda: mc('m3', 'DispatchModel', 'DispatchModel_paths%s.cfg' % sfx, ('Create', 'Recv'),
+                         'DispatchModel paths mode (UntouchedFireOnce, SpecIsLegal, ...)', label='paths'),
+        sims=lambda: sim_histories(ctx, 1500 if thorough else 150, 'DispatchModel_sim.cfg', 14, sub='s1') +
+        sim_histories(ctx, 1000 if thorough else 120, 'DispatchModel_paths_sim.cfg', 6, seed_off=7, sub='s2'),
+        small=lambda: (mc('m4', 'DispatchImpl', 'DispatchImpl.cfg', ('Begin', 'Call', 'End'), 'DispatchImpl (delivery loop over a copy refines Fire)'),
+                       mc('m4', 'OscFaultModel', 'OscFaultModel%s.cfg' % sfx, ('Trunc', 'Word', 'ByteF', 'Extend'), 'OscFaultModel (decoder total on damaged datagrams)'),
+                       mc('m4', 'RegistriesModel', 'RegistriesModel.cfg', ('Add', 'Remove', 'RemoveAll', 'Run'), 'RegistriesModel'),
+                       fault_datagrams(ctx))[-1],
+    )
+    tm0 = time.time()
+    with ThreadPoolExecutor(max_workers=len(jobs)) as ex:
+        futs = {k: ex.submit(f) for k, f in jobs.items()}
+        res_ = {k: f.result() for k, f in futs.items()}
+    sims, faults = res_['sims'], res_['small']
+    ctx.cov.setdefault('phase_wall_s', {})['models'] = round(time.time() - tm0, 1)
 
     t0 = time.time()
     phases = ctx.cov.setdefault('phase_wall_s', {})
     rnd = random.Random(ctx.seed)
     cases = match_cases(4 if thorough else 3, 4 if thorough else 3)
     nmatch = len(cases)
-    faults = fault_datagrams(ctx)
     ctx.cov['fault_datagrams'] = dict(total=len(faults), bad=sum(1 for _, k in faults if k == 'bad'))
     fb = [b for b, _ in faults]
     hs = [dict(kind='dispatch', ev=h, src='directed') for h in directed_histories()]
-    hs += [dict(kind='dispatch', ev=h, src='model') for h in sim_histories(ctx, 1500 if thorough else 150)]
+    hs += [dict(kind='dispatch', ev=h, src='model') for h in sims]
+    hs += [dict(kind='dispatch', ev=h, src='directed') for h in multipath_histories()]
     ctx.cov['spec_behaviours_replayed'] = sum(1 for h in hs if h['src'] == 'model')
     # every fault datagram once, each followed by a normal message
     plain = dict(src=dict(h=0, p=0), rport=0, tmpl=[], os=False, beh=QUIET)
@@ -452,6 +533,7 @@ def run(ctx):
             ev.append(dict(op='recv', v=g.M('/a', [g.I(1)]), src=SENDERS[0], via=1))
         hs.append(dict(kind='dispatch', ev=ev, src='faults'))
     hs += [dict(kind='dispatch', ev=random_history(rnd, fb), src='random') for _ in range(4000 if thorough else 300)]
+    hs += [dict(kind='dispatch', ev=multipath_random(rnd), src='random') for _ in range(2000 if thorough else 200)]
     # a share of the histories goes through real UDP loopback sockets and the library's receive thread
     for k, h in enumerate(hs):
         if h['src'] == 'directed' or (h['src'] in ('random', 'model') and k % 5 == 0):
